@@ -1,5 +1,7 @@
 """Document shapes for the proof tier of C01/C02 (shared by the contracts and the native replayers; no z3 import here).
 Each shape builds real ttconv.model objects; `v(name)` supplies the value of a timing attribute (symbolic, concrete or None)."""
+from fractions import Fraction
+
 import ttconv.model as m
 import ttconv.style_properties as sp
 
@@ -131,6 +133,21 @@ def shape_ruby(v):
   return d
 
 
+def shape_brset(v):
+  """a line break that is the target of <set> and carries a specified style: body > div > p [pb, pe) > [span 'A', br + set(color, [ab, ae)), span 'B']"""
+  nid = _ids()
+  d = m.ContentDocument()
+  r1 = m.Region("r1", d); d.put_region(r1)
+  body = m.Body(d); body.set_id(nid()); d.set_body(body)
+  div = m.Div(d); div.set_id(nid()); div.set_region(r1); body.push_child(div)
+  p = m.P(d); p.set_id(nid()); p.set_begin(v("pb")); p.set_end(v("pe")); div.push_child(p)
+  s1 = m.Span(d); s1.set_id(nid()); p.push_child(s1); s1.push_child(m.Text(d, "A"))
+  br = m.Br(d); br.set_id(nid()); br.set_style(SP.Color, sp.NamedColors.lime.value); p.push_child(br)
+  br.add_animation_step(m.DiscreteAnimationStep(SP.Color, v("ab"), v("ae"), sp.NamedColors.red.value))
+  s2 = m.Span(d); s2.set_id(nid()); p.push_child(s2); s2.push_child(m.Text(d, "B"))
+  return d
+
+
 def shape_rubyparts(v):
   """rubies whose parts have their own timing (an annotation that is temporarily inactive), an rtc with delimiters, a part in another region"""
   nid = _ids()
@@ -164,9 +181,10 @@ def shape_rubyparts(v):
   return d
 
 
-SHAPES = {"rubyparts": shape_rubyparts, "ruby": shape_ruby, "nested": shape_nested, "regions": shape_regions, "display": shape_display, "background": shape_background}
+SHAPES = {"brset": shape_brset, "rubyparts": shape_rubyparts, "ruby": shape_ruby, "nested": shape_nested, "regions": shape_regions, "display": shape_display, "background": shape_background}
 # which of the timing variables are present (None otherwise); a few masks per shape keep the path count moderate
 MASKS = {
+  "brset": [("pb", "pe", "ab", "ae"), ("ab", "ae"), ("pe", "ab")],
   "rubyparts": [("rtb", "rte", "pb"), ("rbb", "rbe", "rtb"), ("rtcb", "rtce", "rt2b"), ("rp1e", "rt2b", "rt2e"), ("pe", "rte", "rbe", "rtce")],
   "nested": [("bb", "be", "pb", "pe"), ("db", "de", "s1b", "s1e"), ("pb", "pe", "s3b", "s3e"), ("be", "de", "pe", "s1e", "s3e"), ("bb", "db", "pb", "s1b", "s3b"),
              ("s1b", "s3b", "s3e"), ("db", "s1e", "s3e")],
